@@ -7,8 +7,8 @@ from .. import abixml, core, pscommon as pc, progspace as ps, seeds, toolrun
 LEVEL = "exploration"
 ENGINE = "progspace"
 TECHNIQUE = "bounded exhaustive exploration: every node of the type catalogue placed in three different documents (alone, and with two different sets of neighbour types; gcc and clang) and every seed program in its two versions; oracle = equality of the hash id of every type with the same spelling across documents, a difference being excused only by a demonstrated probe sequence (all ids between the smaller and the larger one are taken in that document)"
-RULE = ("three pairs of struct names with colliding FNV-1a hashes (documents with both, in both orders, and with each alone) exercise the exception clause; for each catalogue node u: documents D1 = abidw --type-id-style hash of the binary [u], D2 = [u, n1, n2], D3 = [u, n3, n4] (neighbours from a rotating window over the catalogue, so the document contents, type order and "
-        "number of types differ), D4 = D2 compiled with clang; plus each seed program v1 / v2 pair. Types are identified by their spelling reconstructed from the ABIXML by an independent reader (anonymous types excluded). "
+RULE = ("struct node with members of type pointer-to-anonymous-struct/union/enum, alone and after 1-3 other anonymous types (the ordinals of anonymous names shift, the internal names do not); three pairs of struct names with colliding FNV-1a hashes (documents with both, in both orders, and with each alone) exercise the exception clause; for each catalogue node u: documents D1 = abidw --type-id-style hash of the binary [u], D2 = [u, n1, n2], D3 = [u, n3, n4] (neighbours from a rotating window over the catalogue, so the document contents, type order and "
+        "number of types differ), D4 = D2 compiled with clang; plus each seed program v1 / v2 pair. Types are identified by their spelling reconstructed from the ABIXML by an independent reader (the per-document ordinal of anonymous type names is stripped; a spelling carried by several types of one document is not compared). "
         "Oracle: a spelling present in two documents has the same id in both, unless in the document with the larger id every id from the smaller one up to it is in use (linear probing after a collision); ids are 8+ hex digits; "
         "ids are unique within a document. Non-trivial: every (type, document pair) comparison.")
 TEXT = "All catalogue nodes x 4 document contexts; all seeds."
@@ -39,7 +39,8 @@ def stages(ctx):
     el = [{"kind": "node", "u": specs[i], "n": [specs[(i + 7) % n], specs[(i + 13) % n], specs[(i + 29) % n], specs[(i + 31) % n]]} for i in range(n)]
     sd = [{"kind": "seed", "name": s} for s in seeds.all_names()]
     co = [{"kind": "collision", "pair": list(p)} for p in COLLIDING]
-    return [("catalogue-nodes-x-4-contexts", el), ("seed-programs-v1-v2", sd), ("forced-fnv-collisions", co)]
+    an = [{"kind": "anon", "extra": k} for k in (1, 2, 3)]
+    return [("catalogue-nodes-x-4-contexts", el), ("seed-programs-v1-v2", sd), ("forced-fnv-collisions", co), ("types-derived-from-anonymous-types", an)]
 
 
 def _ids(ctx, path):
@@ -56,8 +57,10 @@ def _ids(ctx, path):
             continue
         used.add(int(i, 16))
         s = el.tag.split("-")[0] + ":" + doc.type_string(i)
-        if "__anonymous" in s or "?" in s:
+        if "?" in s:
             continue
+        # the name attribute of an anonymous type carries a per-document ordinal that is not part of its internal name
+        s = re.sub(r"(__anonymous_(?:struct|union|enum)__)\d*", r"\1", s)
         if el.attrib.get("is-declaration-only") == "yes":
             s += " (declaration)"
         m.setdefault(s, set()).add(int(i, 16))
@@ -95,6 +98,21 @@ def evaluate(ctx, e):
             path, us = pc.build_nodes(pack, cc=cc)
             docs.append((name, _ids(ctx, path)))
         what = "node %s" % (u,)
+    elif e["kind"] == "anon":
+        from .. import cbuild
+        # struct node has a member whose type is a pointer to an anonymous struct (and an anonymous union / enum); the second
+        # document defines k more anonymous types before it, which shifts the ordinals libabigail gives to anonymous types
+        node = "struct node { struct node* next; struct { int x; int y; } *pos; union { int i; float f; } *alt; enum { N0, N1 } *kind; };\n"
+        pre = ["struct extra1 { struct { char tag; } hdr; int v; };\n", "struct extra2 { union { char c; long l; } u; };\n", "struct extra3 { enum { E0, E1 } e; struct { short s; } in; };\n"]
+        def lib(k, first):
+            ex = "".join("struct extra%d* e%d, " % (j + 1, j + 1) for j in range(k))
+            params = (ex + "struct node* n") if first else ("struct node* n, " + ex).rstrip(", ")
+            src = "".join(pre[:k]) + node + "int use(%s) { return n->pos->x; }\n" % params
+            return cbuild.shared_c(src, name="libanon.so", tag="c40")
+        docs.append(("node-alone", _ids(ctx, lib(0, False))))
+        docs.append(("node-with-%d-anonymous-reached-first" % e["extra"], _ids(ctx, lib(e["extra"], True))))
+        docs.append(("node-with-%d-anonymous-reached-later" % e["extra"], _ids(ctx, lib(e["extra"], False))))
+        what = "pointer-to-anonymous types of struct node, %d extra anonymous types before it" % e["extra"]
     elif e["kind"] == "collision":
         from .. import cbuild
         a, b = e["pair"]
